@@ -2,9 +2,9 @@
    The model (Machine.v, Merge.v, ArrayShift.v) is executable Gallina; its extraction is run against the real
    momo code on every check (props/C10/harness.cpp vs ocaml/driver.ml). *)
 From Coq Require Import ZArith List Permutation.
-From C10 Require Import Machine Merge MergeProofs ArrayShift ArrayProofs MapModel MapProofs FastMerge FastPtr FastPtrProofs BulkOps HolderRefine.
+From C10 Require Import Machine Merge MergeProofs ArrayShift ArrayProofs MapModel MapProofs FastMerge FastPtr FastPtrProofs BulkOps HolderRefine GenRefine.
 From MomoCommon Require GenPrelude.
-From C10 Require Gen_Holder Gen_HolderTree.
+From C10 Require Gen_Holder Gen_HolderTree Gen_StdInsert Gen_StdInsertU Gen_MergeTo.
 Notation GOk := GenPrelude.Ok. Notation GStuck := GenPrelude.Stuck. Notation GExn := GenPrelude.Exn.
 Import ListNotations.
 Local Open Scope Z_scope.
@@ -529,3 +529,65 @@ Theorem C10_gen_holder_same_code_tree_hash :
   Gen_HolderTree.Clear = Gen_Holder.Clear /\ Gen_HolderTree.IsEmpty = Gen_Holder.IsEmpty.
 Proof. exact holder_same_code. Qed.
 Print Assumptions C10_gen_holder_same_code_tree_hash.
+
+(* ---- GENERATED decision logic of stdish insert(hint, node_type&&) (Gen_StdInsert.v / Gen_StdInsertU.v, regenerated from set.h /
+   unordered_set.h on every run): an empty handle returns end(); a rejected hint hands the extracted item to the NESTED
+   container's Insert (which leaves a refused item in the handle), an accepted hint to the nested Add; the wrapper's own
+   insert(node_type&&), whose insert_return_type would swallow a refused node, is never called (reverting 9f37105 breaks this) *)
+Theorem C10_gen_std_set_insert_hint_decision :
+  forall it_end nh_empty nh_value nh_item mv_ check_hint_ pos_of ts_insert ts_add mTreeSet mSelf hint node,
+    Gen_StdInsert.insert_hint_node it_end nh_empty nh_value nh_item mv_ check_hint_ pos_of ts_insert ts_add mTreeSet mSelf hint node =
+    decide (nh_empty node) (check_hint_ hint (nh_value node)) it_end
+           (pos_of (ts_insert mTreeSet (mv_ (nh_item node)))) (ts_add mTreeSet hint (mv_ (nh_item node))).
+Proof. exact gen_std_insert_hint_decision. Qed.
+Print Assumptions C10_gen_std_set_insert_hint_decision.
+
+Theorem C10_gen_std_uset_insert_hint_decision :
+  forall it_end nh_empty nh_item mv_ pos_of ts_insert mHashSet mSelf hint node,
+    Gen_StdInsertU.insert_hint_node it_end nh_empty nh_item mv_ pos_of ts_insert mHashSet mSelf hint node =
+    decide (nh_empty node) false it_end (pos_of (ts_insert mHashSet (mv_ (nh_item node)))) it_end.
+Proof. exact gen_std_uset_insert_hint_decision. Qed.
+Print Assumptions C10_gen_std_uset_insert_hint_decision.
+
+(* the hand model takes the same decision, with the nested operations interpreted by insert_holder / add_holder *)
+Theorem C10_std_insert_hint_model_is_the_same_decision :
+  forall c multi w dst h hint_ok,
+    std_insert_hint c multi w dst h hint_ok =
+    match h with
+    | None => (w, dst, None, Finished)
+    | Some x => match step_func w with
+                | None => (fail_func w, dst, h, Failed)
+                | Some w1 => decide false hint_ok (w1, dst, h, Finished) (insert_holder c multi w1 dst h) (add_holder c w1 dst h)
+                end
+    end.
+Proof. exact std_insert_hint_is_decide. Qed.
+Print Assumptions C10_std_insert_hint_model_is_the_same_decision.
+
+(* ---- GENERATED TreeSet::MergeTo(TreeSet&) (Gen_MergeTo.v): for every pair of trees (fewer than 2^32 items together), key
+   policy, manager relation and traits kind it takes the path of the hand model (nothing / pvMergeTo / pvMergeToLinear / Swap /
+   pvMergeFast), joins in the same order (the ordering tests of 103bce4) and hands the fields over as the model says: on the
+   fast path the source count becomes 0 and its root null, the destination count is the sum and its root the joined root *)
+Theorem C10_gen_merge_to_refines_dispatch :
+  forall multi eqm emptytr src dst, Z.of_nat (length src) + Z.of_nat (length dst) < 2 ^ 32 ->
+    let '(c1, r1, c2, r2, path) := gen_merge_to multi eqm emptytr src dst in
+    path = fst (hand_dispatch multi eqm emptytr src dst) /\
+    (path = 4 -> c1 = 0 /\ r1 = 0 /\ c2 = Z.of_nat (length dst + length src) /\ r2 = snd (hand_dispatch multi eqm emptytr src dst)) /\
+    (path <> 4 -> c1 = Z.of_nat (length src) /\ r1 = 7 /\ c2 = Z.of_nat (length dst) /\ r2 = 8).
+Proof. exact gen_merge_to_refines. Qed.
+Print Assumptions C10_gen_merge_to_refines_dispatch.
+
+(* ... and the list-level model FastMerge.tree_merge_to_eq is exactly that decision *)
+Theorem C10_merge_to_model_is_hand_dispatch :
+  forall c multi src dst w shape nalloc swap,
+    tree_merge_to_eq c multi src dst w shape nalloc swap =
+    match hand_dispatch multi true true src dst with
+    | (0, _) => (Finished, src, dst, w)
+    | (3, _) => (Finished, [], src, w)
+    | (4, 21) => match merge_fast c w dst src nalloc swap with
+                 | (w', true) => (Finished, [], dst ++ src, w') | (w', false) => (Failed, src, dst, w') end
+    | (4, _) => match merge_fast c w src dst nalloc swap with
+                | (w', true) => (Finished, [], src ++ dst, w') | (w', false) => (Failed, src, dst, w') end
+    | _ => tree_merge_to c multi src dst w shape
+    end.
+Proof. exact tree_merge_to_eq_is_hand_dispatch. Qed.
+Print Assumptions C10_merge_to_model_is_hand_dispatch.
